@@ -124,11 +124,11 @@ func buildTx(c *Case) *btc.Tx {
 			}
 		}
 	}
-	tx.AllocVerVars()
+	guard("Tx.AllocVerVars", func() { tx.AllocVerVars() })
 	for _, s := range c.Spent {
 		tx.Spent_outputs = append(tx.Spent_outputs, &btc.TxOut{Value: s.Value, Pk_script: []byte(s.Script)})
 	}
-	tx.SetHash(tx.Serialize())
+	guard("Tx.SetHash", func() { tx.SetHash(tx.Serialize()) })
 	return tx
 }
 
@@ -171,14 +171,18 @@ func b01(b bool) string {
 	return "0"
 }
 
-// answer computes one crypto query with the real gocoin functions.
-func answer(tx *btc.Tx, idx int, amount uint64, q string) string {
+// answer computes one crypto query with the real gocoin functions. c is the case the transaction was built
+// from: after a panic inside a query the Tx object is rebuilt (the panic may have left tx.hashLock held, the
+// next query on the same object would then block for ever).
+func answer(c *Case, txp **btc.Tx, idx int, amount uint64, q string) string {
 	t := strings.Fields(q)
 	res := "-"
+	tx := *txp
 	quiet(func() {
 		defer func() {
 			if e := recover(); e != nil {
 				r.Hit("crypto-query-panicked:" + t[0])
+				*txp = buildTx(c)
 				if t[0] == "ecdsa" || t[0] == "schnorr" || t[0] == "tweak" {
 					res = "0"
 				} else {
@@ -217,13 +221,13 @@ func answer(tx *btc.Tx, idx int, amount uint64, q string) string {
 }
 
 // dialogue sends a request and serves the oracle's `need` replies until a `res` line arrives.
-func dialogue(line string, tx *btc.Tx, idx int, amount uint64) map[string]string {
+func dialogue(line string, c *Case, tx *btc.Tx, idx int, amount uint64) map[string]string {
 	o.MustAsk("reset")
 	for round := 0; round < 400; round++ {
 		rep := o.MustAsk(line)
 		if strings.HasPrefix(rep, "need ") {
 			q := rep[5:]
-			if d := o.MustAsk("def " + q + " " + answer(tx, idx, amount, q)); d != "ok" {
+			if d := o.MustAsk("def " + q + " " + answer(c, &tx, idx, amount, q)); d != "ok" {
 				fmt.Fprintln(os.Stderr, "oracle refused def:", q, d)
 				os.Exit(3)
 			}
@@ -278,8 +282,11 @@ func family(kind string) string {
 func runCase(c *Case) (impl, model, spec string) {
 	tx := buildTx(c)
 	impl = implVerify(c, tx)
+	if impl == "panic" {
+		tx = buildTx(c) // the panic may have left a lock of the Tx object held
+	}
 	t0 := time.Now()
-	m := dialogue(verifyLine(c), tx, c.Idx, c.Spent[c.Idx].Value)
+	m := dialogue(verifyLine(c), c, tx, c.Idx, c.Spent[c.Idx].Value)
 	oracleTime[family(c.Kind)] += time.Since(t0)
 	model, spec = m["model"], m["spec"]
 	class := m["class"]
@@ -299,10 +306,14 @@ func runCase(c *Case) (impl, model, spec string) {
 	specOK := spec == "OK"
 	// Spec-vs-Core-vector check
 	if c.Expect != "" && ok {
+		key, src := "spec-vs-core-vector", "the Bitcoin Core vector"
+		if strings.HasPrefix(c.Kind, "tapscript:budget") {
+			key, src = "spec-vs-budget-arithmetic", "the harness's own BIP342 budget arithmetic"
+		}
 		if (c.Expect == "OK") != specOK {
-			r.TieFail("spec-vs-core-vector", fmt.Sprintf("the reference semantics gives %s where the Bitcoin Core vector demands %s (%s)", spec, c.Expect, c.Note), c)
+			r.TieFail(key, fmt.Sprintf("the reference semantics gives %s where %s demands %s (%s)", spec, src, c.Expect, c.Note), c)
 		} else {
-			r.Hit("spec-agrees-with-core-vector")
+			r.Hit(strings.Replace(key, "spec-vs-", "spec-agrees-with-", 1))
 		}
 	}
 	tieOK := impl == model
@@ -391,7 +402,10 @@ func runEval(e *EvalCase) {
 		sb.WriteString(vlib.Hex(it))
 	}
 	t0 := time.Now()
-	m := dialogue(sb.String(), tx, 0, 2000)
+	if impl == "panic" {
+		tx = buildTx(c)
+	}
+	m := dialogue(sb.String(), c, tx, 0, 2000)
 	oracleTime[family(e.Kind)] += time.Since(t0)
 	model, spec := m["model"], m["spec"]
 	r.Eval(family(e.Kind), sb.String())
